@@ -3,7 +3,7 @@ From Coq Require Import List String.
 From VQ.Gen Require Import npinit_lq.
 Import ListNotations.
 Open Scope string_scope.
-Lemma pin_npinit_lq : npinit_lq =
+Definition pinned_npinit_lq : list string :=
   ["_basis=_basis";
    "_levels=_levels";
    "commitment_loss_weight=torch.tensor(commitment_loss_weight, dtype=torch.float32)";
@@ -13,4 +13,5 @@ Lemma pin_npinit_lq : npinit_lq =
    "local _basis=torch.cumprod(torch.concat([torch.tensor([1], dtype=int32), _levels[:-1]], dim=0), dim=0)";
    "local implicit_codebook=self.indices_to_codes(torch.arange(self.codebook_size), project_out=False)";
    "local self.codebook_size=self._levels.prod().item()"].
+Lemma pin_npinit_lq : npinit_lq = pinned_npinit_lq.
 Proof. reflexivity. Qed.
